@@ -53,7 +53,7 @@
 EXTENDS Integers, Sequences, FiniteSets, TLC, Json
 
 CONSTANTS
-    Run,          \* "layout" | "code"
+    Run,          \* "layout" | "code" | "flow"
     Codes1,       \* byte strings the first code section is taken from
     Codes2,       \* byte strings of the second code section (<<>> in this set = "no second section")
     Types1,       \* types entries of the first section
@@ -61,7 +61,13 @@ CONSTANTS
     SubLists,     \* sequences of opaque sub-containers
     Datas,        \* data sections
     Slack,        \* declared data size - actual data size  (0 = filled, >0 = truncated data)
-    Planned       \* extra containers given explicitly (sequence of containers; may nest Encode)
+    Planned,      \* extra containers given explicitly (sequence of containers; may nest Encode)
+    \* ---- the "flow" run (code with control flow as the single / first code section)
+    FlowAlpha,    \* alphabet of the byte strings that are built byte by byte
+    FlowN,        \* their largest length
+    FlowGiven,    \* set of containers given explicitly (section 1's max_stack_height is a placeholder)
+    ProbeBases,   \* set of containers whose first code section is probed: a conditional jump to EVERY byte
+    Pusher        \* the one-byte instruction that pushes the condition of a probe
 
 VARIABLES c,      \* the abstract container of this case
           cur     \* how it is written down: [name |-> corruption name, bytes |-> byte string]
@@ -196,27 +202,47 @@ ParseDangling(b) ==
          [v |-> r.v, k |-> r.k, rest |-> IF r.v = "error" THEN <<>> ELSE SubSeq(b, FullLen(h) + 1, Len(b))]
 
 \* ------------------------------------------------------------------------ code validation
-(* PART 2.  What EOF validation must decide is stated here EXACTLY for a fragment and left open
-   outside it:
+(* PART 2.  What EOF validation must decide is stated here EXACTLY for every container WITHOUT
+   SUB-CONTAINERS and left open ("unknown") for containers that have some (the rules for the
+   kinds of sub-containers, EIP-7620, are not written down here).
 
-   The fragment: containers without sub-containers whose code sections are straight-line code
-   over the instructions of `Known` below (no RJUMP/RJUMPI/RJUMPV, no DATALOADN, no
-   EOFCREATE/RETURNCONTRACT).  For such a container the rules of the EIPs reduce to:
+   Written from EIP-3670 (code validation), EIP-4200 (RJUMP RJUMPI RJUMPV), EIP-4750 / EIP-6206
+   (CALLF RETF JUMPF), EIP-5450 (stack validation), EIP-663 (DUPN SWAPN EXCHANGE), EIP-7480
+   (DATALOADN), EIP-7069 (EXTCALL...), EIP-7620 (EOFCREATE RETURNCONTRACT).
+
+   A code section is read left to right as a sequence of instructions: one opcode byte followed by
+   its immediate bytes (PUSHn: n; RJUMP RJUMPI CALLF JUMPF DATALOADN: 2; DUPN SWAPN EXCHANGE
+   EOFCREATE RETURNCONTRACT: 1; RJUMPV: 1 byte max_index followed by max_index+1 two-byte entries).
+   A byte is an INSTRUCTION START or an IMMEDIATE byte accordingly -- every byte of an RJUMPV
+   table and its max_index byte are immediates.
 
      V1  the first section has type (inputs 0, outputs 0x80)                       [4750, 6206]
-     V2  every byte at an instruction position is a defined, EOF-enabled opcode    [3670]
-     V3  no instruction's immediate is cut off by the end of the section           [3670]
-     V4  the last instruction of a section is terminating (STOP, RETURN, REVERT, INVALID,
-         RETF, JUMPF), and -- there being no jumps -- no instruction follows a terminating
-         one (it would be unreachable)                                             [5450]
-     V5  no instruction finds fewer operands than it pops (height starts at `inputs`);
-         CALLF f needs inputs(f), and height - inputs(f) + max_stack(f) <= 1024; f must be a
-         returning section and exist; after CALLF height = height - inputs(f) + outputs(f)
-         JUMPF f: f exists; height - inputs(f) + max_stack(f) <= 1024; to a non-returning f:
-         height >= inputs(f); to a returning f: only from a returning section with
-         outputs >= outputs(f) and height = outputs + inputs(f) - outputs(f) exactly
-         RETF: height = outputs exactly                                            [5450, 4750, 6206]
-     V6  max_stack_height equals the largest height at which any instruction starts [5450]
+     V2  every instruction start is a defined opcode that is enabled in EOF code   [3670]
+     V3  no instruction's immediate (RJUMPV: table) is cut off by the end of the section   [3670, 4200]
+     J   every target of RJUMP / RJUMPI / RJUMPV -- relative offset (signed, big endian) counted
+         from the END of the jump instruction, for RJUMPV from the end of the whole table -- lies
+         inside the section and is an instruction start                            [4200]
+         (offset 0 and RJUMPV with max_index 0 are allowed)
+     S   EIP-5450, one linear pass.  Every instruction gets stack-height bounds [lo, hi].  The
+         first instruction has [inputs, inputs].  Going through the instructions in code order:
+         S1  the instruction must have bounds already (from the sequential flow or from an
+             earlier forward jump), else it is unreachable by forward traversal -> invalid;
+         S2  its operand requirement is judged on lo (no underflow on any path), the call stack
+             limit of CALLF / JUMPF on hi, RETF and JUMPF-to-returning need lo = hi = exact;
+         S3  successors: the next instruction unless this one is terminating (STOP RETURN REVERT
+             INVALID RETF JUMPF RETURNCONTRACT) or RJUMP, and every jump target.  A successor
+             must exist (the last instruction must be terminating or RJUMP).  A successor
+             reached by sequential flow or a forward jump MERGES the new bounds (min of the
+             lo's, max of the hi's); a successor reached by a backward jump (target <= the jump
+             instruction itself) must already have EXACTLY the new bounds;
+         S4  max_stack_height of the section = the largest hi recorded (<= 1023 by the grammar).
+         Requirements: DUPN n: n+1 items (pushes one); SWAPN n: n+2; EXCHANGE x: n+m+1 with
+         n = (x >> 4) + 1, m = (x & 15) + 1; DATALOADN o: o + 32 <= declared data size;
+         CALLF f: f exists and returns, lo >= inputs(f), hi - inputs(f) + max_stack(f) <= 1024,
+         height changes by outputs(f) - inputs(f); JUMPF f: f exists, same limit; to a
+         non-returning f: lo >= inputs(f); to a returning f: only from a returning section with
+         outputs >= outputs(f) and lo = hi = outputs + inputs(f) - outputs(f); RETF: lo = hi =
+         outputs; EOFCREATE / RETURNCONTRACT i: sub-container i exists.   [5450 4750 6206 663 7480 7620]
      V7  a section is declared non-returning (0x80) iff it contains neither RETF nor a JUMPF
          to a returning section                                                    [6206]
      V8  every section is reachable from section 0 through CALLF / JUMPF           [4750]
@@ -224,41 +250,216 @@ ParseDangling(b) ==
      V10 a container used as INITCODE (creation transaction, EOFCREATE target) contains no
          STOP / RETURN; one used as RUNTIME code contains no RETURNCONTRACT        [7620]
 
-   Verdict: "accept" / "reject" for containers of the fragment; "unknown" otherwise, with two
-   exceptions that hold for every container: V1 and V9 violated => "reject".  The complete accept
-   set of the validator (jumps, data loads, sub-container references) is NOT specified here. *)
+   Differences between this revm revision and the final text of the EIPs (stated, not adopted
+   silently; the specification follows the revision):
+     * the types entry carries max_stack_HEIGHT (largest absolute height, inputs included); the
+       final EIP-5450 text carries max_stack_INCREASE (height above the inputs);
+     * JUMPDEST (0x5b) is a valid no-op; RETURNCONTRACT is 0xEE (final: RETURNCODE);
+     * the validator stops at the first broken rule, so WHICH rule is reported is not compared.
 
-STOP == 0  ADD == 1  POP == 80  PUSH0 == 95  PUSH1 == 96  DUP1 == 128  ADDRESS == 48
+   Verdict: "accept" / "reject" for containers without sub-containers; "unknown" otherwise, with
+   two exceptions that hold for every container: V1 and V9 violated => "reject". *)
+
+STOP == 0  ADD == 1  POP == 80  PUSH0 == 95  PUSH1 == 96  DUP1 == 128  ADDRESS == 48  NOP == 91
 CALLF == 227  RETF == 228  JUMPF == 229  RETURN == 243  REVERT == 253  INVALID == 254
+RJUMP == 224  RJUMPI == 225  RJUMPV == 226  DUPN == 230  SWAPN == 231  EXCHANGE == 232
+DATALOADN == 209  EOFCREATE == 236  RETURNCONTRACT == 238  CALLDATASIZE == 54
 
-Known == {STOP, ADD, POP, PUSH0, PUSH1, DUP1, ADDRESS, CALLF, RETF, JUMPF, RETURN, REVERT, INVALID}
-\* opcodes that are certainly not valid in EOF code: never assigned, or removed by EIP-3670/3540
-Unassigned == {12, 13, 14, 15, 30, 31, 33, 239}
+\* The instruction set of EOF code by stack effect (pops -> pushes), from the Yellow Paper and the
+\* EIPs that added instructions.  CALLF RETF JUMPF DUPN SWAPN EXCHANGE DUPn SWAPn LOGn are separate.
+A00 == {STOP, NOP, INVALID, RJUMP}
+A01 == {48, 50, 51, 52, 54, 58, 61} \cup (65..72) \cup {74, 89} \cup (95..127) \cup {209, 210}
+A11 == {21, 25, 49, 53, 64, 73, 81, 84, 92, 208, 247}
+A21 == (1..7) \cup {10, 11} \cup (16..20) \cup (22..24) \cup (26..29) \cup {32}
+A31 == {8, 9, 249, 251}                          \* ADDMOD MULMOD EXTDELEGATECALL EXTSTATICCALL
+A41 == {248, EOFCREATE}                          \* EXTCALL EOFCREATE
+A10 == {POP, RJUMPI, RJUMPV}
+A20 == {82, 83, 85, 93, RETURN, REVERT, RETURNCONTRACT}
+A30 == {55, 62, 94, 211}                         \* CALLDATACOPY RETURNDATACOPY MCOPY DATACOPY
+DUPs == 128..143   SWAPs == 144..159   LOGs == 160..164
+Special == {CALLF, RETF, JUMPF, DUPN, SWAPN, EXCHANGE}
+Defined == A00 \cup A01 \cup A11 \cup A21 \cup A31 \cup A41 \cup A10 \cup A20 \cup A30 \cup DUPs \cup SWAPs \cup LOGs \cup Special
+\* removed from EOF code by EIP-3670 / EIP-3540 (CODESIZE CODECOPY EXTCODESIZE EXTCODECOPY EXTCODEHASH
+\* JUMP JUMPI PC GAS CREATE CALL CALLCODE DELEGATECALL CREATE2 STATICCALL SELFDESTRUCT)
 Removed    == {56, 57, 59, 60, 63, 86, 87, 88, 90, 240, 241, 242, 244, 245, 250, 255}
+Unassigned == (0..255) \ (Defined \cup Removed)
 
-ImmOf(op)  == CASE op = PUSH1 -> 1 [] op \in {CALLF, JUMPF} -> 2 [] OTHER -> 0
-PopsOf(op) == CASE op \in {ADD, RETURN, REVERT} -> 2 [] op \in {POP, DUP1} -> 1 [] OTHER -> 0
-PushOf(op) == CASE op \in {ADD, PUSH0, PUSH1, ADDRESS} -> 1 [] op = DUP1 -> 2 [] OTHER -> 0
-IsTerm(op) == op \in {STOP, RETURN, REVERT, INVALID, RETF, JUMPF}
+\* the straight-line instructions the first version of this specification was written for (kept:
+\* Walk below is the plain reading of the rules for them, and a lemma ties it to the general pass)
+Known == {STOP, ADD, POP, PUSH0, PUSH1, DUP1, ADDRESS, CALLF, RETF, JUMPF, RETURN, REVERT, INVALID}
 
-\* instructions of a section: [op, arg, st] with st = "ok" | "bad" (V2) | "trunc" (V3) | "unknown";
+\* immediate bytes that follow the opcode (RJUMPV: only the max_index byte; its table is extra)
+ImmOf(op)  == IF op \in 96..127 THEN op - 95
+              ELSE IF op \in {RJUMP, RJUMPI, CALLF, JUMPF, DATALOADN} THEN 2
+              ELSE IF op \in {RJUMPV, DUPN, SWAPN, EXCHANGE, EOFCREATE, RETURNCONTRACT} THEN 1
+              ELSE 0
+PopsOf(op) == IF op \in A10 \cup A11 THEN 1 ELSE IF op \in A20 \cup A21 THEN 2 ELSE IF op \in A30 \cup A31 THEN 3
+              ELSE IF op \in A41 THEN 4 ELSE IF op \in DUPs THEN op - 127 ELSE IF op \in SWAPs THEN op - 142
+              ELSE IF op \in LOGs THEN op - 158 ELSE 0
+PushOf(op) == IF op \in A01 \cup A11 \cup A21 \cup A31 \cup A41 THEN 1
+              ELSE IF op \in DUPs THEN op - 126 ELSE IF op \in SWAPs THEN op - 142 ELSE 0
+IsTerm(op) == op \in {STOP, RETURN, REVERT, INVALID, RETF, JUMPF, RETURNCONTRACT}
+IsJump(op) == op \in {RJUMP, RJUMPI, RJUMPV}
+
+S16(hi, lo) == IF hi >= 128 THEN hi * 256 + lo - 65536 ELSE hi * 256 + lo    \* two's complement, big endian
+
+\* instructions of a section, in code order:
+\*   [pos (0-based offset of the opcode), op, size (opcode + immediates), arg (the immediate as a
+\*    number: u16 / byte), tgts (absolute targets of a jump), st = "ok" | "bad" (V2) | "trunc" (V3)];
 \* scanning stops at the first instruction that is not "ok".
 RECURSIVE ScanFrom(_, _)
 ScanFrom(code, i) ==
     IF i >= Len(code) THEN <<>>
-    ELSE LET op == code[i + 1] IN
-         IF op \notin Known
-         THEN <<[op |-> op, arg |-> 0, st |-> IF op \in Unassigned \cup Removed THEN "bad" ELSE "unknown"]>>
-         ELSE IF i + ImmOf(op) >= Len(code) THEN <<[op |-> op, arg |-> 0, st |-> "trunc"]>>
-         ELSE <<[op |-> op, arg |-> IF ImmOf(op) = 2 THEN W(code, i + 1) ELSE 0, st |-> "ok"]>>
-              \o ScanFrom(code, i + 1 + ImmOf(op))
+    ELSE LET op == code[i + 1]
+             n == Len(code)
+             stop(st) == <<[pos |-> i, op |-> op, size |-> 1, arg |-> 0, tgts |-> <<>>, st |-> st]>>
+         IN
+         IF op \notin Defined THEN stop("bad")
+         ELSE IF i + ImmOf(op) >= n THEN stop("trunc")
+         ELSE IF op = RJUMPV THEN
+              LET cnt == code[i + 2] + 1                  \* max_index + 1 entries
+                  size == 2 + 2 * cnt
+              IN IF i + size > n THEN stop("trunc")
+                 ELSE <<[pos |-> i, op |-> op, size |-> size, arg |-> cnt - 1,
+                         tgts |-> [x \in 1..cnt |-> i + size + S16(code[i + 1 + 2 * x], code[i + 2 + 2 * x])],
+                         st |-> "ok"]>> \o ScanFrom(code, i + size)
+         ELSE LET size == 1 + ImmOf(op) IN
+              <<[pos |-> i, op |-> op, size |-> size,
+                 arg |-> IF ImmOf(op) = 2 THEN W(code, i + 1) ELSE IF ImmOf(op) = 1 THEN code[i + 2] ELSE 0,
+                 tgts |-> IF op \in {RJUMP, RJUMPI} THEN <<i + 3 + S16(code[i + 2], code[i + 3])>> ELSE <<>>,
+                 st |-> "ok"]>> \o ScanFrom(code, i + size)
 Scan(code) == ScanFrom(code, 0)
 ScanStatus(ins) == IF ins = <<>> THEN "ok" ELSE ins[Len(ins)].st
+\* (i + ImmOf(op) is the offset of the LAST immediate byte and must lie inside the section; an
+\* instruction may END exactly at the end of the section, e.g. a final RJUMP, see S3)
+
+Starts(ins) == {ins[j].pos : j \in 1..Len(ins)}
+\* index of the instruction that starts at offset p, 0 if p is not an instruction start
+StartIx(ins, p) == IF \E j \in 1..Len(ins) : ins[j].pos = p THEN CHOOSE j \in 1..Len(ins) : ins[j].pos = p ELSE 0
+AllTargets(ins) == UNION {{ins[j].tgts[x] : x \in 1..Len(ins[j].tgts)} : j \in 1..Len(ins)}
 
 Returning(t) == t.outputs # NonReturning
 
+\* ---- rule S: the linear pass of EIP-5450
+Unseen == [lo |-> 100000, hi |-> -1]
+Merge(a, b) == [lo |-> IF a.lo < b.lo THEN a.lo ELSE b.lo, hi |-> Max(a.hi, b.hi)]
+Shift(a, d) == [lo |-> a.lo + d, hi |-> a.hi + d]
+Yes(d) == [why |-> "ok", d |-> d]
+No(why) == [why |-> why, d |-> 0]
+
+\* S2 for instruction I of section s at bounds `at`: may it execute, and by how much does the height change
+Effect(k, s, I, at) ==
+    LET me == k.types[s]
+        f == I.arg + 1                              \* target section (1-based) of CALLF / JUMPF
+        ft == k.types[f]
+        limit == at.hi - ft.inputs + ft.max_stack <= 1024
+        need(n, d) == IF at.lo >= n THEN Yes(d) ELSE No("underflow")
+    IN
+    IF I.op = CALLF THEN
+        IF f > Len(k.types) THEN No("section") ELSE IF ~Returning(ft) THEN No("callf_nonreturning")
+        ELSE IF ~limit THEN No("overflow") ELSE need(ft.inputs, ft.outputs - ft.inputs)
+    ELSE IF I.op = JUMPF THEN
+        IF f > Len(k.types) THEN No("section") ELSE IF ~limit THEN No("overflow")
+        ELSE IF ~Returning(ft) THEN need(ft.inputs, 0)
+        ELSE IF Returning(me) /\ me.outputs >= ft.outputs
+                /\ at.lo = me.outputs + ft.inputs - ft.outputs /\ at.hi = at.lo THEN Yes(0) ELSE No("jumpf_outputs")
+    ELSE IF I.op = RETF THEN
+        IF Returning(me) /\ at.lo = me.outputs /\ at.hi = me.outputs THEN Yes(0) ELSE No("retf_outputs")
+    ELSE IF I.op = DUPN THEN need(I.arg + 1, 1)
+    ELSE IF I.op = SWAPN THEN need(I.arg + 2, 0)
+    ELSE IF I.op = EXCHANGE THEN need((I.arg \div 16) + 1 + (I.arg % 16) + 1 + 1, 0)
+    ELSE IF I.op = DATALOADN THEN (IF I.arg + 32 <= k.dsize THEN Yes(1) ELSE No("dataloadn"))
+    ELSE IF I.op \in {EOFCREATE, RETURNCONTRACT} /\ I.arg >= Len(k.subs) THEN No("subcontainer")
+    ELSE need(PopsOf(I.op), PushOf(I.op) - PopsOf(I.op))
+
+Falls(op) == ~IsTerm(op) /\ op # RJUMP              \* does control continue with the next instruction
+\* successors of instruction j as instruction indexes (all targets are instruction starts: rule J first)
+Succ(ins, j) == (IF Falls(ins[j].op) THEN {j + 1} ELSE {})
+                \cup {StartIx(ins, ins[j].tgts[x]) : x \in 1..Len(ins[j].tgts)}
+
+\* rec: instruction index -> bounds; sx: instruction index -> its successors.
+\* Result [why, rec]: why = "ok" or the rule that is broken.
+RECURSIVE Pass(_, _, _, _, _, _)
+Pass(k, s, ins, sx, j, rec) ==
+    IF j > Len(ins) THEN [why |-> "ok", rec |-> rec]
+    ELSE IF rec[j] = Unseen THEN [why |-> "unreachable", rec |-> rec]                       \* S1
+    ELSE LET e == Effect(k, s, ins[j], rec[j]) IN
+         IF e.why # "ok" THEN [why |-> e.why, rec |-> rec]                                  \* S2
+         ELSE LET nxt == Shift(rec[j], e.d) IN
+              IF Falls(ins[j].op) /\ j = Len(ins) THEN [why |-> "falls_off", rec |-> rec]    \* S3
+              ELSE IF \E t \in sx[j] : t <= j /\ rec[t] # nxt THEN [why |-> "backward", rec |-> rec]
+              ELSE Pass(k, s, ins, sx, j + 1,
+                        [t \in 1..Len(ins) |-> IF t > j /\ t \in sx[j] THEN Merge(rec[t], nxt) ELSE rec[t]])
+
+Bounds0(k, s, ins) == [t \in 1..Len(ins) |-> IF t = 1 THEN [lo |-> k.types[s].inputs, hi |-> k.types[s].inputs] ELSE Unseen]
+MaxHi(rec) == LET hs == {rec[t].hi : t \in DOMAIN rec} IN CHOOSE h \in hs : \A g \in hs : g <= h
+
+\* does the section return (V7)?  needs a complete scan
+Returns(k, ins) ==
+    \E j \in 1..Len(ins) : \/ ins[j].op = RETF
+                           \/ ins[j].op = JUMPF /\ ins[j].arg + 1 <= Len(k.types) /\ Returning(k.types[ins[j].arg + 1])
+Targets(ins) == {ins[j].arg + 1 : j \in {x \in 1..Len(ins) : ins[x].op \in {CALLF, JUMPF}}}
+
+\* The analysis of one section, whatever the container is used for:
+\*   [why |-> "ok" or the first broken rule in the order of this text, ins, sx (successors per
+\*    instruction), rec (bounds per instruction, meaningful when the pass ran), max (largest hi, -1 without a pass)]
+Analyse(k, s) ==
+    LET code == k.codes[s]
+        ins == Scan(code)
+        st == ScanStatus(ins)
+        res(why, sx, rec, m) == [why |-> why, ins |-> ins, sx |-> sx, rec |-> rec, max |-> m]
+    IN
+    IF ins = <<>> THEN res("empty", <<>>, <<>>, -1)
+    ELSE IF st = "bad" THEN res("opcode", <<>>, <<>>, -1)                                        \* V2
+    ELSE IF st = "trunc" THEN res("truncated", <<>>, <<>>, -1)                                   \* V3
+    ELSE IF \E t \in AllTargets(ins) : t < 0 \/ t >= Len(code) THEN res("target_outside", <<>>, <<>>, -1)   \* J
+    ELSE IF ~(AllTargets(ins) \subseteq Starts(ins)) THEN res("target_immediate", <<>>, <<>>, -1)           \* J
+    ELSE IF k.types[s].inputs > k.types[s].max_stack THEN res("inputs", <<>>, <<>>, -1)
+    ELSE LET sx == [j \in 1..Len(ins) |-> Succ(ins, j)]
+             p == Pass(k, s, ins, sx, 1, Bounds0(k, s, ins))
+         IN
+         IF p.why # "ok" THEN res(p.why, sx, p.rec, -1)                                        \* S1-S3
+         ELSE IF MaxHi(p.rec) # k.types[s].max_stack THEN res("max_stack", sx, p.rec, MaxHi(p.rec))   \* S4
+         ELSE IF Returns(k, ins) # Returning(k.types[s]) THEN res("returning_flag", sx, p.rec, MaxHi(p.rec))   \* V7
+         ELSE res("ok", sx, p.rec, MaxHi(p.rec))
+
+\* V10: what the container is used for ("init" or "runtime") only restricts how it may halt
+HaltsWrongly(k, s, mode) ==
+    LET code == k.codes[s]  ins == Scan(code) IN
+    /\ ScanStatus(ins) = "ok"
+    /\ \E j \in 1..Len(ins) : ins[j].op \in (IF mode = "init" THEN {STOP, RETURN} ELSE {RETURNCONTRACT})
+
+RECURSIVE ReachN(_, _, _)
+ReachN(k, set, n) ==
+    IF n = 0 THEN set
+    ELSE ReachN(k, set \cup UNION {Targets(Scan(k.codes[s])) \cap (1..Len(k.codes)) : s \in set}, n - 1)
+Reachable(k) == ReachN(k, {1}, Len(k.codes))
+
+\* the first section that breaks a rule: [s, why], s = 0 if none does
+RECURSIVE FirstBad(_, _)
+FirstBad(k, s) == IF s > Len(k.codes) THEN [s |-> 0, why |-> "ok"]
+                  ELSE LET w == Analyse(k, s).why IN IF w # "ok" THEN [s |-> s, why |-> w] ELSE FirstBad(k, s + 1)
+
+\* what holds of a WELL-FORMED container whatever it is used for: [v, why]
+Core(k) ==
+    IF k.types[1].inputs # 0 \/ k.types[1].outputs # NonReturning THEN [v |-> "reject", why |-> "first_type"]   \* V1
+    ELSE IF k.dsize # Len(k.data) THEN [v |-> "reject", why |-> "data_truncated"]                  \* V9
+    ELSE IF ~InputsFit(k) THEN [v |-> "reject", why |-> "inputs"]
+    ELSE IF k.subs # <<>> THEN [v |-> "unknown", why |-> "subcontainers"]
+    ELSE LET b == FirstBad(k, 1) IN
+         IF b.s # 0 THEN [v |-> "reject", why |-> b.why]
+         ELSE IF Len(k.codes) > 1 /\ Reachable(k) # 1..Len(k.codes) THEN [v |-> "reject", why |-> "section_unreachable"]   \* V8
+         ELSE [v |-> "accept", why |-> "ok"]
+\* the verdict of top-level validation of k used as `mode`, given Core(k)
+Under(k, core, mode) ==
+    IF core.v = "accept" /\ \E s \in 1..Len(k.codes) : HaltsWrongly(k, s, mode)
+    THEN [v |-> "reject", why |-> mode \o "_halt"] ELSE core                                       \* V10
+Judgement(k, mode) == Under(k, Core(k), mode)
+Validity(k, mode) == Judgement(k, mode).v
+
+\* ---- the straight-line reading (the first version of this specification), kept as a cross-check:
 \* Walk the straight line: j = instruction index, h = height before it, m = largest height so far.
-\* Result: -1 = violates V4/V5, otherwise the largest height at an instruction start.
+\* Result: -1 = violates the rules, otherwise the largest height at an instruction start.
 RECURSIVE Walk(_, _, _, _, _, _)
 Walk(k, s, ins, j, h, m) ==
     LET I == ins[j]
@@ -282,45 +483,25 @@ Walk(k, s, ins, j, h, m) ==
     ELSE IF IsTerm(I.op) THEN (IF last THEN m2 ELSE -1)
     ELSE IF last THEN -1                                             \* falls off the end
     ELSE Walk(k, s, ins, j + 1, h - PopsOf(I.op) + PushOf(I.op), m2)
+StraightLine(ins) == ins # <<>> /\ ScanStatus(ins) = "ok" /\ \A j \in 1..Len(ins) : ins[j].op \in Known
 
-\* does the section return (V7)?  needs a complete scan
-Returns(k, ins) ==
-    \E j \in 1..Len(ins) : \/ ins[j].op = RETF
-                           \/ ins[j].op = JUMPF /\ ins[j].arg + 1 <= Len(k.types) /\ Returning(k.types[ins[j].arg + 1])
-Targets(ins) == {ins[j].arg + 1 : j \in {x \in 1..Len(ins) : ins[x].op \in {CALLF, JUMPF}}}
-
-\* "ok" | "bad" | "unknown" for one section; mode is "init" or "runtime"
-SectionVerdict(k, s, mode) ==
-    LET ins == Scan(k.codes[s])
-        st == ScanStatus(ins)
-    IN
-    IF st = "unknown" THEN "unknown"
-    ELSE IF st # "ok" \/ ins = <<>> THEN "bad"                                        \* V2 V3
-    ELSE IF mode = "init" /\ \E j \in 1..Len(ins) : ins[j].op \in {STOP, RETURN} THEN "bad"   \* V10
-    ELSE IF k.types[s].inputs > k.types[s].max_stack THEN "bad"
-    ELSE IF Walk(k, s, ins, 1, k.types[s].inputs, 0) # k.types[s].max_stack THEN "bad"    \* V4 V5 V6
-    ELSE IF Returns(k, ins) # Returning(k.types[s]) THEN "bad"                         \* V7
-    ELSE "ok"
-
-RECURSIVE ReachN(_, _, _)
-ReachN(k, set, n) ==
-    IF n = 0 THEN set
-    ELSE ReachN(k, set \cup UNION {Targets(Scan(k.codes[s])) \cap (1..Len(k.codes)) : s \in set}, n - 1)
-Reachable(k) == ReachN(k, {1}, Len(k.codes))
-
-\* the verdict of top-level validation, for a WELL-FORMED container k
-Validity(k, mode) ==
-    LET n == Len(k.codes)
-        sv == [s \in 1..n |-> SectionVerdict(k, s, mode)]
-    IN
-    IF k.types[1].inputs # 0 \/ k.types[1].outputs # NonReturning THEN "reject"        \* V1
-    ELSE IF k.dsize # Len(k.data) THEN "reject"                                        \* V9
-    ELSE IF ~InputsFit(k) THEN "reject"
-    ELSE IF k.subs # <<>> THEN "unknown"
-    ELSE IF \E s \in 1..n : sv[s] = "unknown" THEN "unknown"
-    ELSE IF \E s \in 1..n : sv[s] = "bad" THEN "reject"
-    ELSE IF Reachable(k) # 1..n THEN "reject"                                          \* V8
-    ELSE "accept"
+\* ---- what validation is FOR (EIP-5450 "guarantees"): the executions of a section.
+\* A configuration is <<instruction index, stack height>>; a jump may go either way.  Steps(x) = the
+\* configurations after one instruction, or {<<0, 0>>} when the instruction cannot execute there
+\* (underflow, limit, typing), runs off the section, or lands on something that is not an instruction.
+Crash == <<0, 0>>
+Steps(k, s, ins, x) ==
+    LET j == x[1]  h == x[2]
+        e == Effect(k, s, ins[j], [lo |-> h, hi |-> h])
+        nexts == (IF Falls(ins[j].op) THEN {IF j < Len(ins) THEN j + 1 ELSE 0} ELSE {})
+                 \cup {StartIx(ins, ins[j].tgts[t]) : t \in 1..Len(ins[j].tgts)}
+    IN IF e.why # "ok" \/ 0 \in nexts \/ h + e.d > 1024 THEN {Crash} ELSE {<<t, h + e.d>> : t \in nexts}
+RECURSIVE RunsFrom(_, _, _, _, _)
+RunsFrom(k, s, ins, seen, frontier) ==
+    IF frontier = {} \/ Crash \in seen THEN seen
+    ELSE LET new == UNION {Steps(k, s, ins, x) : x \in frontier} \ seen IN
+         RunsFrom(k, s, ins, seen \cup new, new \ {Crash})
+Runs(k, s, ins) == LET x0 == <<1, k.types[s].inputs>> IN RunsFrom(k, s, ins, {x0}, {x0})
 
 \* The sufficient condition of the task in its plainest form (a lemma below shows it is implied):
 \* one section, type (0, 0x80, m), PUSH0/POP/ADD/DUP1/ADDRESS... then one halting instruction.
@@ -439,14 +620,73 @@ Said(b) ==
      plain |-> [init |-> r.v = "ok" /\ Plain(r.k, "init"), runtime |-> r.v = "ok" /\ Plain(r.k, "runtime")]]
 
 Start == [name |-> "start", bytes |-> <<>>]
-Init == c \in Universe /\ cur = Start
+
+\* ---- the "flow" run.  The cases are containers whose FIRST code section is
+\*   (a) every byte string of length 1..FlowN over FlowAlpha (built byte by byte: action Extend), as
+\*       the only section (type 0 inputs, non-returning), no data;
+\*   (b) PROBES of the given base containers: a conditional jump (Pusher RJUMPI off / Pusher RJUMPV 0
+\*       off) placed in front of the base code (forward probe) or before its last byte (backward probe)
+\*       and aimed at EVERY byte of the resulting code, one byte before it and one byte behind it;
+\*   (c) the containers given explicitly;
+\* each with every declared max_stack_height from 0 to the number of bytes of the section that are
+\* opcodes with a net push (no linear pass can compute more than that).
+S16Bytes(n) == U16(IF n < 0 THEN n + 65536 ELSE n)
+ProbesOf(code) ==
+    LET n == Len(code)
+        body == SubSeq(code, 1, n - 1)
+        last == SubSeq(code, n, n)
+    IN    {<<Pusher, RJUMPI>> \o S16Bytes(a - 4) \o code : a \in -1..(n + 4)}
+     \cup {<<Pusher, RJUMPV, 0>> \o S16Bytes(a - 5) \o code : a \in -1..(n + 5)}
+     \cup {body \o <<Pusher, RJUMPI>> \o S16Bytes(a - (n + 3)) \o last : a \in -1..(n + 4)}
+     \cup {body \o <<Pusher, RJUMPV, 0>> \o S16Bytes(a - (n + 4)) \o last : a \in -1..(n + 5)}
+Flow1(code) == Cont(<<T(0, NonReturning, 0)>>, <<code>>, <<>>, <<>>, 0)
+\* families of explicit cases (the model constants pick among them)
+Rep(b, n) == [i \in 1..n |-> b]
+\* every byte value as an instruction behind exactly enough / one too few operands, zero immediates
+OpcodeCases == UNION {{Flow1(Rep(Pusher, k) \o <<b>> \o Rep(0, ImmOf(b)) \o <<INVALID>>) :
+                          k \in {PopsOf(b), Max(PopsOf(b) - 1, 0)}} : b \in 0..255}
+\* DUPN / SWAPN / EXCHANGE: immediates x operand counts
+ImmCases(imms, ks) == {Flow1(Rep(Pusher, k) \o <<op, x>> \o <<INVALID>>) : op \in {DUPN, SWAPN, EXCHANGE}, x \in imms, k \in ks}
+\* DATALOADN: offsets x data sizes (data complete)
+DataCases(offs, sizes) == {Cont(<<T(0, NonReturning, 0)>>, << <<DATALOADN>> \o U16(o) \o <<POP, INVALID>> >>, <<>>, Rep(7, n), n) :
+                              o \in offs, n \in sizes}
+FlowInit == {Flow1(<<>>)} \cup FlowGiven \cup ProbeBases
+            \cup UNION {{[b EXCEPT !.codes[1] = p] : p \in ProbesOf(b.codes[1])} : b \in ProbeBases}
+NetPush(op) == (op \in Defined /\ PushOf(op) > PopsOf(op)) \/ op = DUPN \/ op = CALLF
+Heights(code) == 0..Cardinality({i \in 1..Len(code) : NetPush(code[i])})
+
+\* what the rules say about container k (flow run: straight from the abstract container; that the
+\* byte string denotes k is the RoundTrip lemma)
+FlowSaid(k) == LET core == Core(k)  i == Under(k, core, "init")  r == Under(k, core, "runtime") IN
+               [init |-> i.v, runtime |-> r.v, why_init |-> i.why, why_runtime |-> r.why]
+
+Init == cur = Start /\ c \in (IF Run = "flow" THEN FlowInit ELSE Universe)
 
 Write ==
-    /\ cur = Start
+    /\ cur = Start /\ Run # "flow"
     /\ \E w \in (IF Run = "layout" THEN Writings(c) ELSE {[name |-> "encode", bytes |-> Encode(c)]}) :
         /\ cur' = w /\ c' = c
         /\ PrintT("CASE " \o ToJson([name |-> w.name, bytes |-> w.bytes, said |-> Said(w.bytes)]))
-Next == Write
+
+IsBuilt(k) == k = Flow1(k.codes[1]) /\ \A i \in 1..Len(k.codes[1]) : k.codes[1][i] \in FlowAlpha    \* a string under construction
+Extend ==
+    /\ cur = Start /\ Run = "flow" /\ IsBuilt(c) /\ Len(c.codes[1]) < FlowN
+    \* a string whose fate is sealed is a case itself, but its extensions are not enumerated: the scan
+    \* has met an undefined opcode (V2), or a complete jump aims before the section or at an offset
+    \* that no string of this run reaches (J) -- it is rejected for that reason whatever follows
+    /\ LET ins == Scan(c.codes[1]) IN
+       /\ ScanStatus(ins) # "bad"
+       /\ \A t \in AllTargets(ins) : 0 <= t /\ t < FlowN
+    /\ \E b \in FlowAlpha : c' = Flow1(Append(c.codes[1], b))
+    /\ cur' = cur
+WriteFlow ==
+    /\ cur = Start /\ Run = "flow" /\ c.codes[1] # <<>>
+    /\ \E m \in Heights(c.codes[1]) :
+        LET k == [c EXCEPT !.types[1].max_stack = m] IN
+        /\ c' = k
+        /\ cur' = [name |-> "flow", bytes |-> Encode(k)]
+        /\ PrintT("CASE " \o ToJson([name |-> "flow", bytes |-> cur'.bytes, flow |-> FlowSaid(k)]))
+Next == Write \/ Extend \/ WriteFlow
 Spec == Init /\ [][Next]_vars
 
 \* ------------------------------------------------------------------------------- lemmas
@@ -491,5 +731,46 @@ InitImpliesRuntime == (WF(c) /\ Validity(c, "init") = "accept") => Validity(c, "
 \* L10 accepted code never underflows / overflows when executed: heights stay within 0..1024
 \* (immediate from Walk; stated for the record)
 AcceptedHasMaxStack == (WF(c) /\ Validity(c, "runtime") = "accept") =>
-    \A s \in 1..Len(c.codes) : Walk(c, s, Scan(c.codes[s]), 1, c.types[s].inputs, 0) = c.types[s].max_stack
+    \A s \in 1..Len(c.codes) : Analyse(c, s).max = c.types[s].max_stack
+
+\* ---- lemmas about the general validation rules (checked on every case of every run)
+Flowable == WF(c) /\ c.subs = <<>>
+\* L11 the general pass and the straight-line reading agree wherever the latter applies
+L11(s, a) == (StraightLine(a.ins) /\ c.types[s].inputs <= c.types[s].max_stack) =>
+    LET w == Walk(c, s, a.ins, 1, c.types[s].inputs, 0) IN
+    /\ (a.why \in {"ok", "max_stack", "returning_flag"}) <=> (w >= 0)
+    /\ w >= 0 => w = a.max
+\* L12 accepted => every jump target is an instruction start inside the section, never an immediate
+L12(s, a) == \A t \in AllTargets(a.ins) : t \in 0..(Len(c.codes[s]) - 1) /\ StartIx(a.ins, t) > 0
+\* L13 accepted => no instruction is unreachable: each has bounds, each can be reached from the first
+\* one along successors that lead FORWARD only (the prerequisite of the one-pass algorithm), and the
+\* last one does not run off the section
+RECURSIVE FwdReach(_, _, _)
+FwdReach(sx, j, set) == IF j > Len(sx) THEN set
+                        ELSE FwdReach(sx, j + 1, IF j \in set THEN set \cup {t \in sx[j] : t > j} ELSE set)
+L13(s, a) == /\ \A j \in 1..Len(a.ins) : a.rec[j] # Unseen /\ 0 <= a.rec[j].lo /\ a.rec[j].lo <= a.rec[j].hi
+             /\ FwdReach(a.sx, 1, {1}) = 1..Len(a.ins)
+             /\ ~Falls(a.ins[Len(a.ins)].op)
+\* L14 accepted => the declared max_stack_height is the computed one
+L14(s, a) == a.max = c.types[s].max_stack /\ a.max = MaxHi(a.rec) /\ a.max <= 1023
+\* L15 what validation is for: in an accepted section EVERY execution (each jump going either way)
+\* stays on instruction starts inside the section, finds its operands, stays within the recorded
+\* bounds of each instruction, hence below the declared maximum -- and the maximum is attained
+\* when the bounds are tight (lo = hi everywhere)
+L15(s, a) == LET runs == Runs(c, s, a.ins) IN
+    /\ Crash \notin runs
+    /\ \A x \in runs : a.rec[x[1]].lo <= x[2] /\ x[2] <= a.rec[x[1]].hi
+    /\ (\A j \in 1..Len(a.ins) : a.rec[j].lo = a.rec[j].hi) => \E x \in runs : x[2] = a.max
+\* (they speak about c alone: checked once per container -- in the flow run on the written state,
+\* whose c carries the declared height of the case; in the other runs on the initial state)
+SectionLemmas == ((Written <=> Run = "flow") /\ Flowable) => \A s \in 1..Len(c.codes) :
+    LET a == Analyse(c, s) IN
+    /\ L11(s, a)
+    /\ a.why = "ok" => (L12(s, a) /\ L13(s, a) /\ L14(s, a) /\ L15(s, a))
+\* the byte string of a flow case denotes the container the rules were applied to
+FlowDenotes == (Run = "flow" /\ Written) => LET r == Parse(cur.bytes) IN r.k = c /\ (r.v = "ok" <=> InputsFit(c)) /\ r.v # "error"
+\* L16 a declared max_stack_height decides alone: at most one value is accepted for a given code
+\* (flow run: the variants of a code differ in section 1's max_stack_height only)
+OnlyOneHeight == (Run = "flow" /\ Written /\ Flowable /\ Core(c).v = "accept") =>
+    \A m \in Heights(c.codes[1]) \ {c.types[1].max_stack} : Core([c EXCEPT !.types[1].max_stack = m]).v = "reject"
 ==============================================================================
